@@ -27,7 +27,7 @@ def kindOf (s : String) : Option Kind :=
 
 def showSt (s : St) : String :=
   if s.done then "done=1"
-  else s!"hs={s.hstate.toNat} ecl={showOpt s.ecl} cl={s.cl} rem={s.rem} re={showB s.recvEnded} done=0"
+  else s!"hs={s.hstate.toNat} ecl={showOpt s.ecl} cl={s.cl} rem={s.rem} re={showB s.recvEnded} blk={showB s.blocked.isSome} buf={showB (!s.pending.isEmpty)} done=0"
 
 def showEvent : Event → String
   | .headers hs e => s!"H({fmtHeaders hs},end={showB e})"
@@ -38,19 +38,21 @@ def showUnit : Outcome Unit → String
   | .ok _ => "ok"
   | .error e => showErr e
 
-def runOp (w : H3VW) (op : Op) : H3VW × String :=
+def runQ (w : H3VW) (op : QOp) : H3VW × String :=
   match w.st with
   | none => (w, "bad-op")
   | some s =>
-    if ¬ s.done ∧ ¬ applicable s op then (w, "bad-op")
+    if ¬ s.done ∧ ¬ qapplicable s op then (w, "bad-op")
     else
-      let (s', evs, err) := step s op
+      let (s', evs, err) := qstep s op
       let w' := { w with st := some s' }
       match err with
       | some e => (w', showErr e ++ " | " ++ showSt s')
       | none =>
         let es := if evs.isEmpty then "-" else ";".intercalate (evs.map showEvent)
         (w', s!"ok {es} | {showSt s'}")
+
+def runOp (w : H3VW) (op : Op) : H3VW × String := runQ w (.plain op)
 
 /-- the harness prints `bad-op` from the real stream's state; once the
     connection is done the stream object may be in any state, so applicability
@@ -104,6 +106,15 @@ def stepH3V (w : H3VW) : List String → H3VW × String
     match n.toNat?, boolOf fin with
     | some n, some f => runOp w (.frag n f)
     | _, _ => (w, "bad-op")
+  | ["h3v.hdrb", hs, fin] =>
+    match parseHeaders hs, boolOf fin with
+    | some hs, some f => runQ w (.hdrb hs f)
+    | _, _ => (w, "bad-op")
+  | ["h3v.ppb", hs, fin] =>
+    match parseHeaders hs, boolOf fin with
+    | some hs, some f => runQ w (.ppb hs f)
+    | _, _ => (w, "bad-op")
+  | ["h3v.unblock"] => runQ w .unblock
   | ["h3v.fin"] => runOp w .fin
   | ["h3v.other", t, fin] =>
     match t.toNat?, boolOf fin with
